@@ -358,6 +358,12 @@ def install():
     return ws
 
 
+def reinstall():
+    """Forget the imported library and import it again: clears module-level state a change may have introduced."""
+    _installed.clear()
+    return install()
+
+
 def trace_prefix():
     install()
     return _installed["trace_prefix"]
